@@ -723,7 +723,11 @@ def build_functions(sc: Scenario, broker: AsyncBroker) -> None:
         for s in ts.get("deps", []):
             uc = deps[s].get("cache", True)
             params.append(f"{s}=TaskiqDepends({s}, use_cache={uc})")
-        if ts.get("ctx"):
+        if ts.get("ctx") == "annotated":
+            # Annotated style: no default value, the parameter is only ever filled by the dependency resolver
+            params.append("ctx: Annotated[Context, TaskiqDepends()]" if not strict else "ctx: Annotated[Context, TaskiqDepends()] = None")
+            ns["Annotated"] = __import__("typing").Annotated
+        elif ts.get("ctx"):
             params.append("ctx: Context = TaskiqDepends()")
         if not strict:
             params.append("**kwargs")
